@@ -16,3 +16,4 @@ def check(ctx: Ctx) -> None:
     CT.r_ok_constant(ctx, "R17.9")
     CT.r_omitted_params(ctx, "R17.10")
     CT.r_conversion_sites(ctx, "R17.11")
+    CT.r_parser_config(ctx, "R17.12")
